@@ -36,6 +36,13 @@ func H18_retained_update() {
 	vrtExchange(p, pk2)
 	s2, _ := b.connect(vrtConnectPkt([]byte("s2"), true))
 	vrtExchange(s2, &specPkt{Typ: specSUBSCRIBE, ID: 1, Topics: [][]byte{[]byte("#")}, QoS: []byte{0}})
+	// two connections and an in-process call receive the same stored retained message at the same time
+	s3, _ := b.connect(vrtConnectPkt([]byte("s3"), true))
+	s2.peerSend(specEncode(&specPkt{Typ: specSUBSCRIBE, ID: 2, Topics: [][]byte{[]byte("r")}, QoS: []byte{1}}))
+	s3.peerSend(specEncode(&specPkt{Typ: specSUBSCRIBE, ID: 1, Topics: [][]byte{[]byte("+")}, QoS: []byte{2}}))
+	in2 := vrtNewInproc()
+	b.svr.Subscribe("r", 1, &in2.fn)
+	vrtQuiesce()
 	vrtReach("C18.retained_update")
 }
 
@@ -158,4 +165,41 @@ func H18_teardown_after_delivery() {
 	s.peerClose()
 	vrtQuiesce()
 	vrtReach("C18.teardown_after_delivery")
+}
+
+// P8: a stored session with a subscription is resumed while another
+// connection publishes to the subscribed topic.
+func H18_resume() {
+	b := vrtBroker("mockSuccess")
+	s, _ := b.connect(vrtConnectPkt([]byte("s"), false))
+	vrtExchange(s, &specPkt{Typ: specSUBSCRIBE, ID: 1, Topics: [][]byte{[]byte("t")}, QoS: []byte{1}})
+	p, _ := b.connect(vrtConnectPkt([]byte("p"), true))
+	takeover := vrtBool("old_connection_still_open") // the same client id connects again while its old connection is still up
+	if !takeover {
+		if vrtBool("disconnect") {
+			vrtExchange(s, &specPkt{Typ: specDISCONNECT})
+		}
+		s.peerClose()
+		vrtQuiesce()
+	}
+	c := b.open()
+	if vrtBool("publish_first") {
+		p.peerSend(specEncode(&specPkt{Typ: specPUBLISH, Flags: 2, ID: 1, Topic: []byte("t"), Payload: []byte("1")}))
+		c.peerSend(specEncode(vrtConnectPkt([]byte("s"), false)))
+	} else {
+		c.peerSend(specEncode(vrtConnectPkt([]byte("s"), false)))
+		p.peerSend(specEncode(&specPkt{Typ: specPUBLISH, Flags: 2, ID: 1, Topic: []byte("t"), Payload: []byte("1")}))
+	}
+	vrtQuiesce()
+	vrtExchange(p, &specPkt{Typ: specPUBLISH, Flags: 2, ID: 2, Topic: []byte("t"), Payload: []byte("2")})
+	got, ok := vrtParse(c.peerTake())
+	vrtAssert("C18.stream_wellformed", ok)
+	_ = got
+	if takeover {
+		s.peerSend(specEncode(&specPkt{Typ: specDISCONNECT}))
+		s.peerClose()
+		vrtExchange(p, &specPkt{Typ: specPUBLISH, Flags: 2, ID: 3, Topic: []byte("t"), Payload: []byte("3")})
+		vrtQuiesce()
+	}
+	vrtReach("C18.resume")
 }
